@@ -12,8 +12,11 @@ RULE = ("cases: (network, secret exponent, compression flag) round trips through
         "usable registered network in the OpenSSL and the pure-Python configuration; candidate SEC blobs = every prefix "
         "0..255 x lengths {0,1,32,33,34,64,65,66} over several valid bodies, x >= p and y >= p aliases of real points, "
         "hybrid keys, wrong-parity / off-curve / x-without-point bodies, mutated valid encodings, random strings of "
-        "length 0..70, each through Key.from_sec, network.keys.public and sec_to_public_pair; out-of-range secret "
-        "exponents and off-curve pairs on every network; (r, s) boundary products and random pairs through "
+        "length 0..70, each through Key.from_sec, network.keys.public, sec_to_public_pair and, spelled as hex text, parse.sec and (a "
+        "blob-determined share, it costs a point multiplication) parse.public_key; every key's sec_as_hex() text read back by parse.sec / "
+        "parse.public_key; out-of-range secret exponents (classes 0, n, 2^256-1, n < v < 2^256, negative, >= 2^256) through keys.private / "
+        "Key(secret_exponent=) and, written as decimal / hex text, through parse.secret_exponent / parse.private_key; "
+        "off-curve pairs on every network; (r, s) boundary products and random pairs through "
         "sigencode_der / sigdecode_der, candidate DER blobs (trailing bytes after and inside the sequence, mutated and "
         "random strings of length 0..70). Public pairs (off-curve, on NIST P-256, genuine, the point at infinity) are handed "
         "over in every spelling: plain tuple, tuple subclass, namedtuple, pycoin Point bound to the key's own curve, to another "
@@ -57,6 +60,16 @@ ASSUMPTIONS = [
     "the text as something that is not a key (contract) is not judged; texts that read as a decimal / hex number are not given to the dispatchers",
     "ku_output rows wif / key_pair_as_sec / hash160 / address (compressed and uncompressed) are the key's encodings and are compared too",
     "networks GRS, GRSRT, TGRS need the absent groestlcoin_hash module and are reported as absent configurations",
+    "fingerprint(flag) is hash160(flag)[:4] (BIP32 definition) and is compared like hash160",
+    "a compression flag is compared by truth value; a public-only key asked for wif() / secret_exponent() may answer None or refuse, "
+    "it must not give a value; hex text in ku_output rows is compared without regard to letter case; a Point object bound to another "
+    "Curve object whose coordinates lie on secp256k1 may be refused (when accepted it must be that key)",
+    "the hex text of a SEC blob is a spelling of that blob: parse.sec / parse.public_key return a key only for the unique encoding of a "
+    "point, and then that point and flag (own mechanism keys sec.text_*); the number text of an out-of-range exponent gives no key",
+    "every clause has a required counter; counters are summed over shards, so what the PYCOIN_NATIVE=none shards reached is also "
+    "recorded (and required) as purepython/<counter>, and each shard records the arithmetic it really ran with "
+    "(config_active:<openssl|purepython>/<shard kind>, required for the planned one): a shard that silently ran the other "
+    "configuration makes the run INCONCLUSIVE",
 ]
 EXPLANATION = ("every pycoin call is compared with the reference value; decoders may accept a blob only if the strict "
                "reference accepts it and the accepted key re-encodes to the same bytes; named errors are checked by class")
@@ -66,6 +79,7 @@ N = REC.SECP256K1.n
 P_ = REC.SECP256K1.p
 C = REC.SECP256K1
 LENGTHS = [0, 1, 32, 33, 34, 64, 65, 66]
+_SEC_LENGTHS, _DER_LENGTHS = set(), set()
 
 
 def exhaustive(tier):
@@ -117,7 +131,10 @@ class M:
     def __init__(self, rec):
         from pycoin.networks.registry import network_codes, network_for_netcode
         from pycoin.encoding.sec import sec_to_public_pair
-        from pycoin.key.Key import InvalidSecretExponentError, InvalidPublicPairError
+        try:
+            from pycoin.key.Key import InvalidSecretExponentError, InvalidPublicPairError
+        except ImportError:                      # where the classes live is not part of the statement: network.keys.* names them
+            InvalidSecretExponentError = InvalidPublicPairError = Exception
         from pycoin.satoshi import der
         self.sec_to_public_pair = sec_to_public_pair
         self.ISE, self.IPP = InvalidSecretExponentError, InvalidPublicPairError
@@ -135,6 +152,9 @@ class M:
                 rec.note("network %s unusable here: %s" % (code, str(e)[:80]))
         self._pub = {}
         self._kc = {}
+        import os
+        self.pure = os.environ.get("PYCOIN_NATIVE") == "none"
+        self.replay = False
 
     def keyclass(self, code):
         if code not in self._kc:
@@ -150,6 +170,12 @@ class M:
 def boundary_exponents():
     return [1, 2, 3, N - 1, N - 2, (N - 1) // 2, (N + 1) // 2, 1 << 128, (1 << 255), 0xff, 1 << 248, (1 << 248) - 1,
             P_ - N, 0x0100, N - (1 << 128), 0x80 << 240, int("01" * 32, 16), int("7f" + "ff" * 31, 16)]
+
+
+def _no_secret(observed):
+    """a public key asked for its secret exponent / WIF: None or a refusal, never a value (the statement says no more)"""
+    st, v = observed
+    return st != "ok" or v is None
 
 
 def _split_address(text):
@@ -172,7 +198,7 @@ def check_key(net, code, se, comp, rec, m, prefixes):
     if tuple(k.public_pair()) != Pref:
         rec.violation("key.public_pair_mismatch", case, tuple(k.public_pair()), Pref)
         return
-    if k.is_compressed() is not comp or k.secret_exponent() != se:
+    if bool(k.is_compressed()) is not comp or k.secret_exponent() != se:
         rec.violation("key.flag_or_exponent_mismatch", case, [k.is_compressed(), k.secret_exponent()], [comp, se])
     sec_c, sec_u = RS.encode(Pref, True), RS.encode(Pref, False)
     mine = sec_c if comp else sec_u
@@ -217,7 +243,7 @@ def check_key(net, code, se, comp, rec, m, prefixes):
             continue
         exp_sec = sec_c if wc else sec_u
         exp_addr = addr if wc == comp else addr_o
-        obs = [k2.secret_exponent(), k2.is_compressed(), tuple(k2.public_pair()), observe(k2.sec)[1], observe(k2.hash160)[1],
+        obs = [k2.secret_exponent(), bool(k2.is_compressed()), tuple(k2.public_pair()), observe(k2.sec)[1], observe(k2.hash160)[1],
                observe(k2.address)[1], observe(k2.wif)[1]]
         exp = [se, wc, Pref, exp_sec, RS.hash160(exp_sec), exp_addr, w]
         if obs != exp:
@@ -234,9 +260,9 @@ def check_key(net, code, se, comp, rec, m, prefixes):
             if st != "ok":
                 rec.violation("sec.rejects_valid", dict(case, blob=blob, entry=name), pk, "key")
                 continue
-            obs = [tuple(pk.public_pair()), pk.is_compressed(), observe(pk.sec)[1], observe(pk.hash160)[1], observe(pk.address)[1],
-                   pk.secret_exponent(), observe(pk.wif)[1]]
-            exp = [Pref, bc, blob, RS.hash160(blob), exp_addr, None, None]
+            obs = [tuple(pk.public_pair()), bool(pk.is_compressed()), observe(pk.sec)[1], observe(pk.hash160)[1], observe(pk.address)[1],
+                   _no_secret(observe(pk.secret_exponent)), _no_secret(observe(pk.wif))]
+            exp = [Pref, bc, blob, RS.hash160(blob), exp_addr, True, True]
             if obs != exp:
                 names = ["public_pair", "compression_flag", "sec", "hash160", "address", "secret_exponent", "wif"]
                 bad = [n for n, a, b in zip(names, obs, exp) if a != b]
@@ -245,9 +271,22 @@ def check_key(net, code, se, comp, rec, m, prefixes):
         st, pp = observe(m.sec_to_public_pair, blob, net.generator)
         if st != "ok" or tuple(pp) != Pref:
             rec.violation("sec.rejects_valid" if st != "ok" else "sec.decode_mismatch", dict(case, blob=blob, entry="sec_to_public_pair"), pp, Pref)
+        # the key's own text form of that encoding, read back by the text parsers (whatever the text looks like)
+        rec.ev("key.sec_as_hex")
+        st, text = observe(k.sec_as_hex, is_compressed=bc)
+        for name, fn in (("parse.sec", net.parse.sec), ("parse.public_key", net.parse.public_key)):
+            if name == "parse.public_key" and (m.pure or bc != comp) and not m.replay:
+                continue                         # the dispatcher multiplies a point per call: default configuration, the key's own form
+            rec.ev("sec_text_roundtrip")
+            st2, pk = observe(fn, text) if st == "ok" else ("exc", text)
+            if st2 != "ok" or pk is None:
+                rec.violation("sec.text_roundtrip_refused", dict(case, sec_text_compressed=bc, entry=name), pk, "key")
+            elif [tuple(pk.public_pair()), bool(pk.is_compressed()), observe(pk.sec)[1], observe(pk.address)[1]] != [Pref, bc, blob, exp_addr]:
+                rec.violation("sec.text_roundtrip_mismatch", dict(case, sec_text_compressed=bc, entry=name),
+                              [tuple(pk.public_pair()), pk.is_compressed(), observe(pk.sec)[1], observe(pk.address)[1]], [Pref, bc, blob, exp_addr])
     rec.ev("Key(public_pair)")
     st, pk = observe(net.keys.public, Pref, is_compressed=comp)
-    if st != "ok" or tuple(pk.public_pair()) != Pref or pk.is_compressed() is not comp or observe(pk.sec)[1] != mine \
+    if st != "ok" or tuple(pk.public_pair()) != Pref or bool(pk.is_compressed()) is not comp or observe(pk.sec)[1] != mine \
             or observe(pk.address)[1] != addr or observe(pk.hash160)[1] != h_mine:
         rec.violation("key.public_pair_roundtrip", case, pk, Pref)
     # the same pair handed over as a Point object of the network's own curve / as a tuple subclass
@@ -285,6 +324,10 @@ def check_key(net, code, se, comp, rec, m, prefixes):
                 st, got = observe(meth) if flag is None else observe(meth, is_compressed=flag)
                 if name == "public_pair" and st == "ok":
                     got = tuple(got)
+                if name == "is_compressed" and st == "ok":
+                    got = bool(got)
+                if exp[(name, flag)] is None and name in ("wif", "secret_exponent") and _no_secret((st, got)):
+                    continue
                 if st != "ok" or got != exp[(name, flag)]:
                     rec.violation("key.history.%s_mismatch" % name, dict(case, object=label, query=[name, flag]),
                                   got, exp[(name, flag)])
@@ -568,8 +611,11 @@ def run_history(net, code, src, steps, rec, m, pf):
                         if row[0] in KU_NAMES:
                             qn, qf = KU_NAMES[row[0]]
                             exp = km_expect(mo, qn, qf, pf)
-                            exp = exp.hex() if isinstance(exp, bytes) else exp
-                            if row[1] != exp:
+                            shown = row[1]
+                            if isinstance(exp, bytes):
+                                exp = exp.hex()
+                                shown = shown.lower() if isinstance(shown, str) else shown      # hex text: letter case is free
+                            if shown != exp:
                                 rec.violation("key.history.ku_output_mismatch", dict(where, row=row[0]), row[1], exp)
                                 return
         else:
@@ -581,7 +627,11 @@ def run_history(net, code, src, steps, rec, m, pf):
                 st, got = observe(meth) if flag is None else observe(meth, is_compressed=flag)
             if name == "public_pair" and st == "ok" and got is not None:
                 got = tuple(got)
+            if name in ("is_compressed", "is_private") and st == "ok" and got is not None:
+                got = bool(got)
             exp = km_expect(mo, name, flag, pf)
+            if exp is None and name in ("wif", "secret_exponent") and _no_secret((st, got)):
+                continue
             if st != "ok" or got != exp:
                 mech = "key.history.%s_mismatch" % name if mo.origin == "source" else "key.derived.%s.%s_mismatch" % (mo.origin, name)
                 rec.violation(mech, where, got, exp)
@@ -632,6 +682,8 @@ def systematic_histories(src_kind, private, parity, light=False):
                 for f in order:
                     steps.append(["q", 1, "hash160", f])
                     steps.append(["q", 1, "address", f])
+                if kind in ("public_copy", "wif_text:parse.wif") and fi == (pi + ki + parity) % 3:
+                    steps.append(["x", 1 if pi % 2 else 0, "ku_output", None])      # every printed row of the copy / of the source, mid-history
                 steps += [["q", 1, "fingerprint", order[2]], ["q", 1, "sec", order[0]], ["q", 1, "is_compressed", None], ["q", 1, "public_pair", None],
                           ["q", 1, "wif", order[1]], ["q", 1, "secret_exponent", None]]
                 for f in order:
@@ -735,7 +787,9 @@ def judge_wif_text(net, code, pw, text, rec, m, entries=WIF_ENTRIES, shared=Fals
     arg = text
     if shared:
         # one parseable_str (pycoin's caching str subclass) handed to every entry point in turn
-        from pycoin.networks.parseable_str import parseable_str
+        parseable_str = getattr(net, "parseable_str_type", None)
+        if parseable_str is None:
+            from pycoin.networks.parseable_str import parseable_str
         arg = parseable_str(text)
         rec.ev("wif_text_object_reused")
         if warm is not None and warm in m.nets:
@@ -758,6 +812,7 @@ def judge_wif_text(net, code, pw, text, rec, m, entries=WIF_ENTRIES, shared=Fals
                 rec.violation(WIF_ACCEPT_MECH[why], case, [observe(k.secret_exponent)[1], observe(k.is_compressed)[1], observe(k.wif)[1]], "refused (%s)" % why)
                 continue
             got = [observe(k.secret_exponent)[1], observe(k.is_compressed)[1]]
+            got[1] = bool(got[1]) if got[1] is not None and not isinstance(got[1], Exception) else got[1]
             back = observe(k.wif)[1]
             if got != [se, comp]:
                 rec.violation("wif.decode_mismatch", case, got, [se, comp])
@@ -950,9 +1005,13 @@ def judge_pair(net, code, pr, form, entry, rec, m):
         rec.ev("foreign_curve_point" + (":off_curve" if not on else ":on_curve"))
     st, r = observe(fn, obj)
     if on:
-        if st != "ok" or tuple(r.public_pair()) != pr:
+        if st != "ok" and form in ("point_same_field_b", "point_same_field_a3"):
+            # a Point object bound to another Curve object whose coordinates happen to lie on secp256k1: the statement does not say
+            # whether that is a public key of the network; refusing it is tolerated, accepting it must give the right key
+            rec.ev("foreign_curve_point:on_curve_refused")
+        elif st != "ok" or tuple(r.public_pair()) != pr:
             rec.violation("key.valid_pair_refused", case, r, pr)
-        elif observe(r.sec)[1] != RS.encode(pr, comp) or r.is_compressed() is not comp:
+        elif observe(r.sec)[1] != RS.encode(pr, comp) or bool(r.is_compressed()) is not comp:
             rec.violation("key.public_pair_roundtrip", case, observe(r.sec)[1], RS.encode(pr, comp))
     elif st == "ok":
         rec.violation("pair.accepts_off_curve", case, "accepted as a key", "InvalidPublicPairError")
@@ -962,28 +1021,61 @@ def judge_pair(net, code, pr, form, entry, rec, m):
 
 # ---------------------------------------------------------------------------------------------
 
+BAD_SECRET_ENTRIES = ("keys.private", "keys.private(uncompressed)", "Key(secret_exponent=)")
+BAD_SECRET_TEXT_ENTRIES = ("parse.secret_exponent", "parse.private_key")
+BAD_SECRET_CLASSES = ("zero", "n", "2^256-1", "above_n", "negative", "ge_2^256")
+
+
+def _bad_secret_class(v):
+    return "zero" if v == 0 else "n" if v == N else "2^256-1" if v == (1 << 256) - 1 else "negative" if v < 0 else "above_n" if v < 1 << 256 else "ge_2^256"
+
+
+def judge_bad_secret(net, code, v, name, rec, m):
+    """an exponent outside [1, n-1]: the constructors raise InvalidSecretExponentError; the parsers of the number as text give no key"""
+    case = {"net": code, "se": v, "entry": name}
+    if name in BAD_SECRET_ENTRIES:
+        KeyClass = m.keyclass(code)
+        fn = {"keys.private": lambda x: net.keys.private(x), "keys.private(uncompressed)": lambda x: net.keys.private(x, is_compressed=False),
+              "Key(secret_exponent=)": lambda x: KeyClass(secret_exponent=x)}[name]
+        rec.ev("bad_secret_exponent")
+        rec.ev("bad_secret_exponent:" + _bad_secret_class(v))
+        rec.case(("badse", code, v, name))
+        st, r = observe(fn, v)
+        if st == "ok":
+            rec.violation("secret.accepts_out_of_range", case, r, "InvalidSecretExponentError")
+        elif not isinstance(r, m.ISE) or not isinstance(r, net.keys.InvalidSecretExponentError):
+            rec.violation("secret.wrong_exception", case, r, "InvalidSecretExponentError")
+        return
+    # the same number written out (decimal; hexadecimal when the digits cannot be read as decimal)
+    base, _, spelling = name.partition("/")
+    fn = net.parse.secret_exponent if base == "parse.secret_exponent" else net.parse.private_key
+    text = str(v) if spelling != "hex" else "%x" % v
+    if spelling == "hex" and (text.lstrip("-").isdigit() or v < 0):
+        return
+    rec.ev("bad_secret_exponent_text")
+    rec.case(("badse_text", code, text, base))
+    st, r = observe(fn, text)
+    if st == "ok" and r is not None and hasattr(r, "secret_exponent"):
+        rec.violation("secret.text_accepts_out_of_range", case, [observe(r.secret_exponent)[1], observe(r.wif)[1]], "no key (None or an exception)")
+
+
 def run_secret(spec, rec, m):
     rng = shard_rng(spec["seed"], PROPERTY, spec["tier"], spec["shard"])
     fixed_bad = [0, N, N + 1, (1 << 256) - 1, -1, -N, 1 << 256, 2 * N, N + (1 << 128), 1 << 300, -(1 << 255), -(N - 1), (1 << 256) + 1]
     G = C.G
     for code in sorted(m.nets):
         net = m.nets[code]
-        KeyClass = type(net.keys.private(1))
         bad = list(fixed_bad)
         for _ in range(spec["n"]):
             mode = rng.random()
             bad.append(rng.randrange(N, 1 << 256) if mode < 0.5 else -rng.randrange(1, 1 << 256) if mode < 0.8 else rng.randrange(1 << 256, 1 << 320))
         for v in bad:
-            for name, fn in (("keys.private", lambda x: net.keys.private(x)), ("keys.private(uncompressed)", lambda x: net.keys.private(x, is_compressed=False)),
-                             ("Key(secret_exponent=)", lambda x: KeyClass(secret_exponent=x))):
-                rec.ev("bad_secret_exponent")
-                rec.case(("badse", code, v, name))
-                st, r = observe(fn, v)
-                case = {"net": code, "se": v, "entry": name}
-                if st == "ok":
-                    rec.violation("secret.accepts_out_of_range", case, r, "InvalidSecretExponentError")
-                elif not isinstance(r, m.ISE) or not isinstance(r, net.keys.InvalidSecretExponentError):
-                    rec.violation("secret.wrong_exception", case, r, "InvalidSecretExponentError")
+            for name in BAD_SECRET_ENTRIES:
+                judge_bad_secret(net, code, v, name, rec, m)
+        for vi, v in enumerate(bad):
+            for ei, base in enumerate(BAD_SECRET_TEXT_ENTRIES):
+                if vi < len(fixed_bad) or (vi + ei) % 2:
+                    judge_bad_secret(net, code, v, base + ("/hex" if (vi + ei) % 3 == 0 else "/dec"), rec, m)
         for v in (1, N - 1):
             rec.ev("Key(secret_exponent)")
             st, r = observe(net.keys.private, v)
@@ -1043,26 +1135,43 @@ ACCEPT_MECH = {"length": "sec.accepts_bad_length", "prefix": "sec.accepts_bad_pr
                "y_ge_p": "sec.accepts_coordinate_ge_p", "no_point": "sec.accepts_x_without_point", "off_curve": "sec.accepts_off_curve"}
 
 
-def judge_sec(blob, code, net, rec, m, cls=""):
+def judge_sec(blob, code, net, rec, m, cls="", all_entries=False):
     why, Pt, comp = RS.classify(blob)
     rec.case(("sec", blob), nontrivial=len(blob) > 0)
     rec.ev("sec_class:" + why)
     KeyClass = m.keyclass(code)
-    for name, fn in (("Key.from_sec", KeyClass.from_sec), ("keys.public(sec)", net.keys.public)):
+    if why == "prefix" and blob[0] in (0, 1, 5, 6, 7):
+        rec.ev("sec_wrong_prefix:%02x" % blob[0])
+        if blob[0] in (6, 7) and len(blob) == 65 and RS.classify(b"\x04" + blob[1:])[0] == "ok":
+            rec.ev("sec_hybrid_of_real_point")
+    _SEC_LENGTHS.add(len(blob))
+    # the text-level decoders (hex spelling of the blob): a key comes back only for the unique encoding of a point
+    text = blob.hex()
+    entries = [("Key.from_sec", KeyClass.from_sec, blob), ("keys.public(sec)", net.keys.public, blob), ("parse.sec", net.parse.sec, text)]
+    if all_entries or (sum(blob) + len(blob)) % (8 if not m.pure else 64) == 0:
+        # the dispatcher costs a point multiplication per call (it builds the key of exponent 1 to find the curve): a blob-determined share
+        entries.append(("parse.public_key", net.parse.public_key, text))
+    for name, fn, arg in entries:
         rec.ev(name)
-        st, k = observe(fn, blob)
+        st, k = observe(fn, arg)
         case = {"net": code, "blob": blob, "entry": name}
+        pre = "sec."
+        if arg is text:
+            pre = "sec.text_"                            # its own mechanism keys: a text parser can differ from the byte decoders
+            if st == "ok" and k is None:
+                st, k = "exc", None                      # the parsers answer None for what they do not read
+            rec.ev("sec_text_accepted" if st == "ok" else "sec_text_refused")
         if st == "ok":
             if why != "ok":
-                rec.violation(ACCEPT_MECH[why], case, [tuple(k.public_pair()), k.is_compressed()], "rejected (%s)" % why)
+                rec.violation(pre + ACCEPT_MECH[why][4:], case, [tuple(k.public_pair()), k.is_compressed()], "rejected (%s)" % why)
             else:
                 pp, ic, re_ = tuple(k.public_pair()), k.is_compressed(), observe(k.sec)[1]
-                if pp != Pt or ic is not comp:
-                    rec.violation("sec.decode_mismatch", case, [pp, ic], [Pt, comp])
+                if pp != Pt or bool(ic) is not comp:
+                    rec.violation(pre + "decode_mismatch", case, [pp, ic], [Pt, comp])
                 elif re_ != blob:
-                    rec.violation("sec.reencode_differs", case, re_, blob)
+                    rec.violation(pre + "reencode_differs", case, re_, blob)
         elif why == "ok":
-            rec.violation("sec.rejects_valid", case, k, [Pt, comp])
+            rec.violation(pre + "rejects_valid", case, k, [Pt, comp])
     rec.ev("sec_to_public_pair")
     st, pp = observe(m.sec_to_public_pair, blob, net.generator)
     case = {"net": code, "blob": blob, "entry": "sec_to_public_pair"}
@@ -1107,6 +1216,7 @@ def run_sec(spec, rec, m):
     rng = shard_rng(spec["seed"], PROPERTY, spec["tier"], spec["shard"])
     codes = sorted(m.nets)
     idx = spec["idx"]
+    _SEC_LENGTHS.clear()
     # one network per shard for the sweeps, rotating with the seed; random blobs go round all networks
     code0 = "BTC" if idx == 0 else codes[(idx * 7 + spec["seed"]) % len(codes)]
     net0 = m.nets[code0]
@@ -1209,6 +1319,8 @@ def run_sec(spec, rec, m):
         judge_sec(blob, code, net, rec, m)
         done += 1
     rec.ev("networks_usable", len(codes))
+    if all(L in _SEC_LENGTHS for L in range(71)):
+        rec.ev("sec_blob_every_length_0_70")
 
 
 # ---------------------------------------------------------------------------------------------
@@ -1243,15 +1355,18 @@ def check_der_pair(r, s, rec, m, rng):
     # trailing bytes after the sequence, and inside it after s
     junk = bytes(rng.randrange(256) for _ in range(rng.choice([1, 1, 2, 5])))
     for t in (exp + b"\x00", exp + junk):
-        judge_der_blob(t, rec, m)
+        judge_der_blob(t, rec, m, tag="der_trailing:after_sequence")
     if exp[1] + len(junk) < 0x80:
-        judge_der_blob(exp[:1] + bytes([exp[1] + len(junk)]) + exp[2:] + junk, rec, m)
+        judge_der_blob(exp[:1] + bytes([exp[1] + len(junk)]) + exp[2:] + junk, rec, m, tag="der_trailing:inside_sequence_after_s")
     return exp
 
 
-def judge_der_blob(blob, rec, m):
+def judge_der_blob(blob, rec, m, tag=None):
     """strict decoder on an arbitrary blob."""
     rec.case(("der_blob", blob), nontrivial=len(blob) > 0)
+    if tag:
+        rec.ev(tag)
+    _DER_LENGTHS.add(len(blob))
     rec.ev("sigdecode_der(strict)")
     st, got = observe(m.der.sigdecode_der, blob, use_broken_open_ssl_mechanism=False)
     why, val = RD.decode_notrail(blob)
@@ -1277,6 +1392,7 @@ def run_der(spec, rec, m):
     n = spec["n"]
     done = 0
     idx = spec["idx"]
+    _DER_LENGTHS.clear()
     pool = []
     for i, r in enumerate(B):
         for j, s in enumerate(B):
@@ -1339,42 +1455,79 @@ def run_der(spec, rec, m):
                 blob = b"\x30" + bytes([L - 2 if rng.random() < 0.7 else rng.randrange(256)]) + blob[2:]
         judge_der_blob(blob[:300], rec, m)
         done += 1
+    if all(L in _DER_LENGTHS for L in range(71)):
+        rec.ev("der_blob_every_length_0_70")
+
+
+REQUIRED = {
+    "roundtrip": ("parse.wif", "keys.public(sec)", "Key.from_sec", "sec_to_public_pair", "key.sec", "key.hash160", "key.address", "key.wif",
+                  "Key(secret_exponent)", "Key(public_pair)", "key.sec_as_hex", "sec_text_roundtrip", "key.query_history", "networks_usable"),
+    "secret": ("bad_secret_exponent", "bad_secret_exponent_text", "parse.wif(out_of_range)", "off_curve_pair", "foreign_curve_point:off_curve",
+               "foreign_curve_point:on_curve", "pair_form:point_own", "pair_form:tuple", "infinity_pair", "Key(public_pair)", "networks_usable")
+              + tuple("bad_secret_exponent:" + c for c in BAD_SECRET_CLASSES),
+    "sec": ("Key.from_sec", "keys.public(sec)", "sec_to_public_pair", "parse.sec", "parse.public_key", "sec_text_accepted", "sec_text_refused",
+            "sec_class:ok", "sec_class:length", "sec_class:prefix", "sec_class:x_ge_p", "sec_class:y_ge_p", "sec_class:no_point", "sec_class:off_curve",
+            "sec_hybrid_of_real_point") + tuple("sec_wrong_prefix:%02x" % b for b in (0, 1, 5, 6, 7)),
+    "history": ("key.query_history", "derived_query", "source_query", "side_step:ku_output")
+               + tuple("derive:" + d for d in ("public_copy", "subkey", "subkey_for_path", "subkeys", "pair", "sec_bytes", "sec_hex", "pair_text",
+                                               "wif_text", "exponent")),
+    "wif": ("parse.wif", "parse.private_key", "parse.secret", "parse", "wif_class:ok", "wif_class:marker", "wif_class:length",
+            "wif_class:prefix", "wif_class:range", "wif_class:checksum", "wif_text_accepted", "wif_text_refused", "wif_text_object_reused",
+            "wif_text_object_reused_across_networks"),
+    "der": ("sigencode_der", "sigdecode_der(strict)", "sigdecode_der(default)", "der_blob_rejected:trailing", "der_blob_rejected:malformed",
+            "der_blob_accepted", "der_trailing:after_sequence", "der_trailing:inside_sequence_after_s"),
+}
+# reached by the default-configuration shards only (budget): the whole-run requirement is attached there
+REQUIRED_DEFAULT_ONLY = {"sec": ("sec_blob_every_length_0_70",), "der": ("der_blob_every_length_0_70",),
+                         "history": ("derive:child", "derive:child_pub")}
+
+
+# the pure-Python history shard runs the 'light' plan: the derivations that can share state with their source
+REQUIRED_PURE = {"history": ("key.query_history", "derived_query", "source_query", "side_step:ku_output", "derive:public_copy", "derive:subkey",
+                             "derive:subkey_for_path", "derive:subkeys", "derive:pair", "derive:wif_text")}
+
+
+def active_configuration(m):
+    """'openssl' / 'purepython': is the point multiplication of the networks' generator the plain Curve.multiply or an accelerated one
+    (judged on the class the generator object really has, whatever the mix-in is called)"""
+    from pycoin.ecdsa.Curve import Curve
+    g = next(iter(m.nets.values())).generator
+    return "purepython" if getattr(type(g), "multiply", None) is Curve.multiply else "openssl"
 
 
 def run_shard(spec, rec):
     m = M(rec)
     kind = spec["kind"]
-    if kind == "roundtrip":
-        rec.require("parse.wif", "keys.public(sec)", "Key.from_sec", "key.sec", "key.hash160", "key.address", "key.wif")
-        run_roundtrip(spec, rec, m)
-    elif kind == "secret":
-        rec.require("bad_secret_exponent", "off_curve_pair", "foreign_curve_point:off_curve", "pair_form:point_own", "infinity_pair")
-        run_secret(spec, rec, m)
-    elif kind == "sec":
-        rec.require("Key.from_sec", "keys.public(sec)", "sec_to_public_pair", "sec_class:x_ge_p", "sec_class:prefix", "sec_class:ok")
-        run_sec(spec, rec, m)
-    elif kind == "history":
-        rec.require("key.query_history", "derive:public_copy", "derived_query", "source_query", "side_step:ku_output", "derive:wif_text")
-        run_histories(spec, rec, m)
-    elif kind == "wif":
-        rec.require("parse.wif", "parse.private_key", "parse.secret", "parse", "wif_class:ok", "wif_class:marker", "wif_class:length",
-                    "wif_class:prefix", "wif_class:range", "wif_class:checksum", "wif_text_accepted", "wif_text_refused", "wif_text_object_reused",
-                    "wif_text_object_reused_across_networks")
-        run_wif(spec, rec, m)
-    else:
-        rec.require("sigencode_der", "sigdecode_der(strict)", "der_blob_rejected:trailing")
-        run_der(spec, rec, m)
+    if kind not in REQUIRED:
+        raise ValueError(kind)
+    planned = "purepython" if (spec.get("env") or {}).get("PYCOIN_NATIVE") == "none" else "openssl"
+    active = active_configuration(m)
+    # the configuration a shard was planned for must be the one that ran, or that configuration of the quantifier stays unobserved
+    rec.require("config_active:%s/%s" % (planned, kind))
+    rec.ev("config_active:%s/%s" % (active, kind))
+    if active != planned:
+        rec.note("shard %s planned for the %s configuration ran with %s arithmetic" % (spec.get("label", kind), planned, active))
+    reqs = REQUIRED[kind] + REQUIRED_DEFAULT_ONLY.get(kind, ()) if planned == "openssl" else REQUIRED_PURE.get(kind, REQUIRED[kind])
+    rec.require(*reqs)
+    {"roundtrip": run_roundtrip, "secret": run_secret, "sec": run_sec, "history": run_histories, "wif": run_wif, "der": run_der}[kind](spec, rec, m)
+    if planned == "purepython":
+        # counters are summed over shards: the clauses reached in the second configuration are shown (and required) under its own name
+        for r in reqs:
+            rec.require("purepython/" + r)
+            if rec.counters.get(r) and active == "purepython":
+                rec.ev("purepython/" + r, rec.counters[r])
 
 
 def replay_case(case, rec):
     m = M(rec)
+    m.replay = True
     if "der_blob" in case:
         judge_der_blob(case["der_blob"], rec, m)
     elif "r" in case and "s" in case:
         check_der_pair(int(case["r"]), int(case["s"]), rec, m, shard_rng(0, PROPERTY, "replay", 0))
     elif "blob" in case:
         net = m.nets[case["net"]]
-        judge_sec(case["blob"], case["net"], net, rec, m)
+        judge_sec(case["blob"], case["net"], net, rec, m, all_entries=True)
     elif "history" in case:
         net = m.nets[case["net"]]
         pf = net_prefixes(net, case["net"], rec)
@@ -1391,13 +1544,8 @@ def replay_case(case, rec):
         net = m.nets[case["net"]]
         pr = tuple(None if v is None else int(v) for v in case["pair"])
         judge_pair(net, case["net"], pr, case.get("form", "tuple"), case.get("entry", "keys.public(pair)"), rec, m)
-    elif "entry" in case and "se" in case:
-        net = m.nets[case["net"]]
-        st, r = observe(net.keys.private, int(case["se"]))
-        if st == "ok":
-            rec.violation("secret.accepts_out_of_range", case, r, "InvalidSecretExponentError")
-        elif not isinstance(r, m.ISE):
-            rec.violation("secret.wrong_exception", case, r, "InvalidSecretExponentError")
+    elif "entry" in case and "se" in case and "compressed" not in case:
+        judge_bad_secret(m.nets[case["net"]], case["net"], int(case["se"]), case["entry"], rec, m)
     elif "se" in case:
         net = m.nets[case["net"]]
         check_key(net, case["net"], int(case["se"]), bool(case["compressed"]), rec, m, {})
